@@ -610,3 +610,14 @@ impl Drop for WriteAheadLog {
         self.flush().unwrap(); // Force panic if we fail to flush
     }
 }
+
+#[cfg(feature = "verif")]
+impl WriteAheadLog {
+    /// The process "dies": nothing is flushed, but the file descriptor is closed (a harness that abandons thousands
+    /// of logs in one process must not run out of descriptors).
+    pub(crate) fn verif_abandon(self) {
+        let me = std::mem::ManuallyDrop::new(self);
+        // SAFETY: `me` is never dropped or used again; the file is moved out exactly once and closed by its own drop.
+        drop(unsafe { std::ptr::read(&me.file) });
+    }
+}
